@@ -34,6 +34,9 @@ ASSUMPTIONS = [
     "float32 columns of the matched-note table: 1e-5*(1+|x|); order of rows with equal (score onset, pitch) is not demanded",
     "time maps are judged at the matched score onsets / mean performed onsets (tolerance 1e-5*(1+|x|) plus the local slope times 5e-7*(1+|x|), float32 knots) and must be the linear interpolation halfway between neighbouring knots (1e-4*(1+|x|) + 1e-3 of the knot distance)",
     "every score id / performance id occurs in at most one match of the alignment",
+    "a user-defined tempo curve (callable tempo_smooth, documented) is any positive beat period per unique score onset: the round trip must hold for it as for the built-in curves",
+    "decode_performance(return_alignment=True) must pair every score id with the decoded note that carries this id, in whatever order the rows were given; re-encoding the decoded performance with that alignment must give the same notes (values not judged)",
+    "to_matched_score(include_score_markings=True): the six basic columns and the ids as without the option, a voice column equal to the score voice and at least one feature column (feature values not judged)",
     "beyond the property statement, the 'average' tempo curve is compared with its documented meaning (performed interval of successive mean onsets per score interval) at all but the last score onset; the values of the 'derivative' curve are not judged, only that the round trip holds with it",
 ]
 
@@ -149,6 +152,9 @@ def classes(o, spec, ref):
     keys = [(ref.score[s]["t"], ref.score[s]["pitch"]) for s, _ in ref.pairs]
     o.cls("equal-onset-and-pitch", len(set(keys)) < len(keys))
     o.cls("score-given-as-Score", spec.get("score_as") == "score")
+    o.cls("score-given-as-PartGroup", spec.get("score_as") == "group")
+    o.cls("alignment-ids-are-numpy-strings", spec.get("ids_as_numpy", False))
+    o.cls("one-alignment-list-for-all-calls", spec.get("reuse_alignment", False))
     o.cls("performance-given-as-Performance", spec.get("perf_as") == "performance")
     o.cls("performance-ids-look-like-score-ids", any(pn["id"] in ref.score for pn in spec["perf"]))
     only_grace = any(all(ref.score[s]["dur"] == 0 for s, _ in m) for _, m in ref.groups)
@@ -163,12 +169,17 @@ class Feeder(object):
     def __init__(self, o, spec, ref):
         self.o, self.spec, self.ref = o, spec, ref
         self.reduced = False
+        self.shared = None  # audit: one alignment list handed to every call (the codec rewrites its score ids in place)
 
     def alignment(self):
+        if self.spec.get("reuse_alignment", False) and self.shared is not None:
+            return self.shared
         al = GP.alignment_copy(self.spec)
         if self.reduced:
             ghosts = set(a["performance_id"] for a in self.ref.ghost_perf)
             al = [a for a in al if not (a["label"] == "match" and a["performance_id"] in ghosts)]
+        if self.spec.get("reuse_alignment", False):
+            self.shared = al
         return al
 
     def __call__(self, fn):
@@ -181,6 +192,7 @@ class Feeder(object):
                 self.o.add(e.kind + ":match-with-unknown-performance-id", text=e.text, entry=self.ref.ghost_perf[0])
                 self.o.excluded.append("continued-without-matches-to-unknown-performance-ids")
                 self.reduced = True
+                self.shared = None
         return call(fn, self.alignment())
 
 
@@ -189,11 +201,32 @@ class Feeder(object):
 # --------------------------------------------------------------------------
 
 
+def user_curve(kind):
+    """A user-defined tempo curve (encode_performance documents a callable for tempo_smooth): one positive
+    beat period per unique score onset, on the grouping of the built-in curves."""
+
+    def curve(score_onsets, performed_onsets, score_durations, performed_durations, return_onset_idxs=False):
+        bp, s_on, uidx = PC.tempo_by_average(score_onsets=score_onsets, performed_onsets=performed_onsets, score_durations=score_durations,
+                                             performed_durations=performed_durations, return_onset_idxs=True)
+        bp = np.asarray(bp, dtype=float)
+        if kind == "constant":
+            bp = np.full_like(bp, 0.5)
+        elif kind == "scaled":
+            bp = 1.5 * bp
+        else:  # zigzag
+            bp = np.array([0.4 if i % 2 else 0.7 for i in range(len(bp))], dtype=float)
+        return (bp, s_on, uidx) if return_onset_idxs else (bp, s_on)
+
+    return curve
+
+
 def _suffix(configs):
     norms = sorted(set(c[0] for c in configs))
     meths = sorted(set(c[1] for c in configs))
     if len(configs) == len(GP.NORMS) * len(GP.METHODS):
         return ""
+    if meths == ["callable"]:
+        return ":only-user-defined-curve" + ("" if len(norms) == len(GP.NORMS) else ":" + "+".join(norms))
     if len(norms) == 1 and len(meths) == len(GP.METHODS):
         return ":only-" + norms[0]
     if len(meths) == 1 and len(norms) == len(GP.NORMS):
@@ -275,10 +308,18 @@ def oracle_roundtrip(spec):
         seen.setdefault((ref.score[sid]["t"], ref.score[sid]["pitch"]), []).append(sid)
     ambiguous = any(len(v) > 1 for v in seen.values())
     configs = [(n, m) for n in GP.NORMS for m in GP.METHODS]
+    extra_cfg = configs[spec.get("extra_cfg", 0) % len(configs)]
+    ckind = spec.get("callable_curve")
+    o.cls("user-defined-tempo-curve", ckind is not None)
+    o.cls("decode-rows-in-another-order", spec.get("decode_order", "given") != "given")
+    o.cls("decode-returns-alignment", spec.get("return_alignment", False))
+    if ckind is not None:
+        configs = configs + [(n, "callable") for n in GP.NORMS]
     for cfg in configs:
         norm, meth = cfg
+        smooth = user_curve(ckind) if meth == "callable" else meth
         try:
-            res = feed(lambda al: PC.encode_performance(score, perf, al, beat_normalization=norm, tempo_smooth=meth))
+            res = feed(lambda al: PC.encode_performance(score, perf, al, beat_normalization=norm, tempo_smooth=smooth))
         except SutRaised as e:
             note(e.kind + ":encode", cfg, text=e.text)
             continue
@@ -317,6 +358,8 @@ def oracle_roundtrip(spec):
             note(e.kind + ":decode", cfg, text=e.text)
             continue
         judge(dec, sids, cfg)
+        if cfg == extra_cfg or meth == "callable":
+            decode_variants(o, spec, ref, score, perf, params, sids, cfg, judge, note, ambiguous)
         if cfg == configs[0] and len(ref.pairs) == len(ref.score) and not ambiguous:
             # every score note is matched: the ids may be left out (rows are then taken in note-array order)
             try:
@@ -345,6 +388,59 @@ def oracle_roundtrip(spec):
     for kind, (cfgs, detail) in sorted(found.items()):
         o.add(kind + _suffix(cfgs), configurations=["%s/%s" % c for c in cfgs][:10], **detail)
     return o
+
+
+def decode_variants(o, spec, ref, score, perf, params, sids, cfg, judge, note, ambiguous):
+    """Audit: decode_performance with its further documented arguments - rows and snote_ids in another order
+    (the function documents that the rows are in the order of snote_ids), return_alignment, part_id / part_name -
+    and the decoded performance handed back to the encoder."""
+    norm = cfg[0]
+    order = list(range(len(sids)))
+    mode = spec.get("decode_order", "given")
+    if mode == "reversed":
+        order = order[::-1]
+    elif mode == "permuted":
+        keys = spec.get("perm_keys", [])
+        order = sorted(order, key=lambda i: (keys[i % len(keys)] if keys else 0, i))
+    want_al = bool(spec.get("return_alignment", False))
+    named = bool(spec.get("name_decoded_part", False))
+    if order == list(range(len(sids))) and not want_al and not named:
+        return
+    tag = ":rows-in-another-order" if order != list(range(len(sids))) else ""
+    kw = dict(snote_ids=[sids[i] for i in order], beat_normalization=norm)
+    if want_al:
+        kw["return_alignment"] = True
+    if named:
+        kw.update(part_id="DEC", part_name="decoded")
+    try:
+        res = call(PC.decode_performance, score, params[order], **kw)
+    except SutRaised as e:
+        note(e.kind + ":decode" + tag, cfg, text=e.text)
+        return
+    dec, al = (res if want_al else (res, None))
+    if want_al and not (isinstance(res, tuple) and len(res) == 2):
+        note("decode-result-shape", cfg, got=repr(type(res)))
+        return
+    judge(dec, sids, cfg, tag)
+    if named and (dec.id, dec.part_name) != ("DEC", "decoded"):
+        note("decoded-part-id-or-name-not-set", cfg, got=[dec.id, dec.part_name])
+    if al is not None:
+        # every entry pairs a score note with the decoded note that carries its id
+        pairs = sorted((str(a.get("label")), str(a.get("score_id")), str(a.get("performance_id"))) for a in al)
+        want = sorted(("match", s, s) for s in sids)
+        if pairs != want:
+            wrong = [p for p in pairs if p not in want]
+            note("returned-alignment-does-not-pair-each-score-note-with-its-decoded-note" + tag, cfg, wrong_entries=wrong[:4], n_wrong=len(wrong),
+                 rows_in_another_order=bool(tag))
+        elif not ambiguous:
+            # the decoded performance and its alignment are an input of the encoder again
+            try:
+                res2 = call(PC.encode_performance, score, dec, [dict(a) for a in al], beat_normalization=norm)
+                sids2 = [str(x) for x in res2[1]]
+                if sorted(sids2) != sorted(sids) or not np.all(np.isfinite(np.asarray(res2[0]["beat_period"], dtype=float))):
+                    note("re-encoding-the-decoded-performance-gives-other-notes", cfg, got=sids2, expected=sids)
+            except SutRaised as e:
+                note(e.kind + ":re-encode-decoded", cfg, text=e.text)
 
 
 # --------------------------------------------------------------------------
@@ -396,6 +492,22 @@ def oracle_table(spec):
     feed = Feeder(o, spec, ref)
     res = feed(lambda al: PC.to_matched_score(score, perf, al))
     _check_table(o, ref, res, "objects")
+    if spec.get("markings", False):
+        # audit: the documented option include_score_markings adds the voice and the score-marking features
+        # as further columns; the six basic columns and the ids stay what they are
+        o.cls("table-with-score-markings")
+        res = feed(lambda al: PC.to_matched_score(score, perf, al, include_score_markings=True))
+        _check_table(o, ref, res, "objects+markings")
+        if isinstance(res, tuple) and len(res) == 2 and len(res[0]) == len(res[1]):
+            m, sids = res
+            names = list(m.dtype.names or ())
+            if "voice" not in names or not any("feature" in n for n in names):
+                o.add("matched-score-marking-columns-missing", got=names)
+            else:
+                voice_of = dict((n["id"], n["voice"]) for n in spec["part"]["notes"])
+                bad = [(str(sid), int(v), voice_of.get(str(sid))) for sid, v in zip(sids, m["voice"]) if int(v) != voice_of.get(str(sid))]
+                if bad:
+                    o.add("matched-score-voice-column-wrong", examples=bad[:4])
     sna = call(part.note_array)
     pna = call(ppart.note_array)
     res = feed(lambda al: PC.to_matched_score(sna.copy(), pna.copy(), al))
@@ -544,7 +656,16 @@ def k_fragile(spec, disc):
     return ":last-onset-has-only-grace-notes" in k and Ref(spec).fragile_last_time()
 
 
+def k_alignment_rows(spec, disc):
+    """decode_performance(return_alignment=True) pairs the score notes in the order they were given with the
+    decoded notes in (onset, pitch) order: wrong whenever the rows / snote_ids are not already in that order."""
+    return (disc.kind.startswith("returned-alignment-does-not-pair-each-score-note-with-its-decoded-note:rows-in-another-order")
+            and spec.get("decode_order", "given") != "given" and bool(spec.get("return_alignment"))
+            and disc["detail"].get("rows_in_another_order") is True)
+
+
 KNOWN_ROUNDTRIP = {
+    "decode-alignment-pairs-rows-given-in-another-order-wrongly": k_alignment_rows,
     "closing-interval-lost-to-rounding": k_fragile,
     "unknown-performance-id-raises": k_unknown_perf_id,
     "grace-note-duration-lost": k_grace,
@@ -571,10 +692,13 @@ SUBCHECKS = [
         oracle_roundtrip,
         strategy=lambda tier: GP.case(tier),
         budget={"quick": 100, "thorough": 1500},
-        rule=RULE + "; every case is encoded and decoded with all 5 normalisations x 2 tempo-curve methods",
+        rule=RULE + "; every case is encoded and decoded with all 5 normalisations x 2 tempo-curve methods (and x a user-defined callable curve in two cases of five); one configuration is also decoded with rows / ids in another order, return_alignment, part_id / part_name, and its result encoded again; score as Part / Score / PartGroup, alignment ids as str or numpy strings, one alignment list reused for all calls or fresh copies",
         known=KNOWN_ROUNDTRIP,
         floors={"chord-matched": 0.2, "tempo-not-constant": 0.2, "grace-note-matched": 0.03, "short-duration(<75ms)": 0.1,
-                "match-with-missing-performance-id": 0.03, "match-with-missing-score-id": 0.03},
+                "match-with-missing-performance-id": 0.03, "match-with-missing-score-id": 0.03,
+                # generator audit
+                "user-defined-tempo-curve": 0.2, "decode-rows-in-another-order": 0.2, "decode-returns-alignment": 0.2,
+                "score-given-as-PartGroup": 0.08, "alignment-ids-are-numpy-strings": 0.08, "one-alignment-list-for-all-calls": 0.1},
     ),
     SubCheck(
         "matched_table",
@@ -583,7 +707,8 @@ SUBCHECKS = [
         budget={"quick": 100, "thorough": 1500},
         rule=RULE + "; to_matched_score with objects and with note arrays, get_matched_notes on the note arrays",
         known=KNOWN_TABLE,
-        floors={"chord-matched": 0.2, "match-with-missing-performance-id": 0.03, "match-with-missing-score-id": 0.03, "deletion": 0.1, "insertion": 0.05},
+        floors={"chord-matched": 0.2, "match-with-missing-performance-id": 0.03, "match-with-missing-score-id": 0.03, "deletion": 0.1, "insertion": 0.05,
+                "table-with-score-markings": 0.1, "score-given-as-PartGroup": 0.08, "alignment-ids-are-numpy-strings": 0.08},
     ),
     SubCheck(
         "time_maps",
@@ -592,6 +717,6 @@ SUBCHECKS = [
         budget={"quick": 100, "thorough": 1500},
         rule=RULE + "; both maps, with and without ornaments, objects and note arrays, at every matched onset and at the midpoints",
         known=KNOWN_MAPS,
-        floors={"chord-with-onset-deviations": 0.1, "tempo-not-constant": 0.2},
+        floors={"chord-with-onset-deviations": 0.1, "tempo-not-constant": 0.2, "alignment-ids-are-numpy-strings": 0.08},
     ),
 ]
